@@ -662,11 +662,8 @@ def oracle(sc, ex):
                         and a['ts'] == str(sc['clock'])):
                     viol.append(('the reissued ticket is not a fresh valid ticket for the same identity: %s' % a, None))
         elif resp:
-            fid = None
-            if due and not forgets and remembers and identifies and remembers[-1] < identifies[0]:
-                fid = 'F-C09b'        # remember() before the first identify() of the request
             viol.append(('%d reissued ticket(s) attached although %s' % (
-                len(resp), 'the user was forgotten or re-remembered' if due else 'no reissue is due'), fid))
+                len(resp), 'the user was forgotten or re-remembered' if due else 'no reissue is due'), None))
     elif unchanged is None and resp and not minted:
         # a reissue can only come from an accepted ticket; it must still be for an issued identity
         pass
